@@ -22,7 +22,7 @@ RULE = ("(A) Amplifier families (vf/gen/amplify.py): ODS column/row repeats on v
         "a forked worker under RLIMIT_AS/RLIMIT_CPU: extractor + get_full_text + iterate_units. Oracle: CPU <= 5 s + 100 us x U and peak-RSS growth <= 64 MiB + 512 x U (U = uncompressed input "
         "size, for archives the archive itself plus admitted members), and the worker is not killed. (B) Limits: read_file(max_file_size=L) on files of L-1, L, L+1 bytes and L=0, incl. a sparse "
         "file just above the 100 MB default; 7z archives of exactly 100 MB - 1 / 100 MB / 100 MB + 1; members of L-1, L, L+1 bytes in ZIP/TAR/TAR.GZ/7z for configured limits L and for the "
-        "default 10 MiB, with spies on ZipFile.read, TarFile.extractfile and SevenZipReader._decompress_folder and a listing of the temp directory. "
+        "default 10 MiB (entries may share a name, tar links may point at oversize members), with spies on ZipFile.read (delivered size), TarFile.extractfile and SevenZipReader._decompress_folder and a listing of the temp directory. "
         "Non-trivial = m >= 1000 with U <= 1 MiB, or a size within 1 byte of a limit; distinct by case digest.")
 ASSUMPTIONS = ["thresholds are the ones fixed in DESIGN.md (64 MiB + 512 x U; CPU 5 s + 100 us x U, relaxed from the 20 us of the design so that linear-cost inputs with a large constant pass): observed legitimate cost is 10-40 MiB and < 1 s for these inputs, violations are 10x-1000x above",
                "the per-member limit is ArchiveConfig.max_memory_size (default 10 MiB), the value the size filters of all three archive readers compare with",
